@@ -669,6 +669,16 @@ func (e *emitter) emit(sc *scenario, b *types.Block) []byte {
 	return bz
 }
 
+// emitApply writes an `ap` line (the real ApplyBlock) for a decodable block.
+func (e *emitter) emitApply(sp *stateSpec, bz []byte) {
+	if bz == nil || sp.lastHeight > 1<<60 || sp.lastHeight < 0 {
+		return // the state store's own height arithmetic (nextHeight+1) is out of scope at the int64 edge
+	}
+	if l, ok := lineOp("ap", sp, bz); ok {
+		e.w.Op("%s", l)
+	}
+}
+
 func (e *emitter) emitBytes(sp *stateSpec, bz []byte) {
 	if l, ok := line(sp, bz); ok {
 		e.w.Op("%s", l)
@@ -1069,8 +1079,12 @@ func gen(w *kit.Out, r *kit.Rand, tier string) {
 	// 1. boundary table
 	for _, sc := range tableScenarios() {
 		w.Case("table-" + sc.name)
-		for _, m := range ms {
-			keep(sc, e.mutate(sc, []mutation{m}, r))
+		for i, m := range ms {
+			bz := e.mutate(sc, []mutation{m}, r)
+			keep(sc, bz)
+			if m.name == "none" || sc.name == "h10-skewed" || sc.name == "genesis-fork" || (i+len(sc.name))%9 == 0 {
+				e.emitApply(&sc.sp, bz)
+			}
 		}
 	}
 	// 2. quorum table
@@ -1098,7 +1112,9 @@ func gen(w *kit.Out, r *kit.Rand, tier string) {
 	for i := 0; i < nsc; i++ {
 		sc := randScenario(r)
 		w.Case(fmt.Sprintf("rand-%d", i))
-		keep(sc, e.mutate(sc, nil, r))
+		bz0 := e.mutate(sc, nil, r)
+		keep(sc, bz0)
+		e.emitApply(&sc.sp, bz0)
 		for j := 0; j < per; j++ {
 			k := 1
 			if r.Chance(25) {
@@ -1108,7 +1124,11 @@ func gen(w *kit.Out, r *kit.Rand, tier string) {
 			for ; k > 0; k-- {
 				pick = append(pick, ms[r.Intn(len(ms))])
 			}
-			keep(sc, e.mutate(sc, pick, r))
+			bz := e.mutate(sc, pick, r)
+			keep(sc, bz)
+			if j%4 == 0 {
+				e.emitApply(&sc.sp, bz)
+			}
 		}
 	}
 	// 5. malformed stream
